@@ -18,6 +18,7 @@ import (
 	"github.com/akrylysov/pogreb/zzverif/hashforge"
 	"github.com/akrylysov/pogreb/zzverif/refmodel"
 	"github.com/akrylysov/pogreb/zzverif/simfs"
+	"github.com/akrylysov/pogreb/zzverif/vsync"
 )
 
 // DBPath is the directory of the database inside the harness file system.
@@ -249,26 +250,57 @@ func (e *PanicError) Error() string { return "panic: " + e.Msg }
 
 // protect runs f and converts a panic of the code under test into a PanicError (and reports it).
 func (s *Sess) protect(what string, f func() error) (err error) {
-	defer func() {
-		if r := recover(); r != nil {
-			if he, ok := r.(harnessErr); ok {
-				panic(he)
+	report := func(msg string) error {
+		s.Panicked = what + ": " + msg
+		if PanicSink != nil && !s.quietPanic {
+			var w []string
+			for _, o := range s.History {
+				w = append(w, o.String())
 			}
-			msg := panicSummary(fmt.Sprintf("%v\n%s", r, debug.Stack()))
-			s.Panicked = what + ": " + msg
-			err = &PanicError{Msg: s.Panicked}
-			if PanicSink != nil && !s.quietPanic {
-				var w []string
-				for _, o := range s.History {
-					w = append(w, o.String())
-				}
-				PanicSink(fmt.Sprintf("panic base=%s cfg=%s word=%s at=%s", s.BaseName, s.Cfg.Name, strings.Join(w, " "), what),
-					fmt.Sprintf("base %s/%s after [%s]: %s panicked: %s", s.BaseName, s.Cfg.Name, strings.Join(w, ", "), what, msg),
-					map[string]interface{}{"kind": "panic", "base": s.BaseName, "cfg": s.Cfg.Name, "word": w, "at": what, "observed": msg})
-			}
+			PanicSink(fmt.Sprintf("panic base=%s cfg=%s word=%s at=%s", s.BaseName, s.Cfg.Name, strings.Join(w, " "), what),
+				fmt.Sprintf("base %s/%s after [%s]: %s: %s", s.BaseName, s.Cfg.Name, strings.Join(w, ", "), what, msg),
+				map[string]interface{}{"kind": "panic", "base": s.BaseName, "cfg": s.Cfg.Name, "word": w, "at": what, "observed": msg})
 		}
-	}()
-	return f()
+		return &PanicError{Msg: s.Panicked}
+	}
+	if vsync.Active() {
+		// already inside a scheduler run (not the case for the sequential checks): plain call with recover
+		defer func() {
+			if r := recover(); r != nil {
+				if he, ok := r.(harnessErr); ok {
+					panic(he)
+				}
+				err = report("panicked: " + panicSummary(fmt.Sprintf("%v\n%s", r, debug.Stack())))
+			}
+		}()
+		return f()
+	}
+	// The call runs as the only thread of a scheduler run: a lock that can never be granted (e.g. a mutex that an
+	// earlier, failed operation left locked) is a deadlock STATE the scheduler reports, instead of a hung worker.
+	var ferr error
+	var he interface{}
+	x := vsync.Run(nil, vsync.Sched{}, func() {
+		defer func() {
+			if r := recover(); r != nil {
+				if _, ok := r.(harnessErr); ok {
+					he = r
+					return
+				}
+				panic(r)
+			}
+		}()
+		ferr = f()
+	})
+	if he != nil {
+		panic(he)
+	}
+	switch {
+	case x.Deadlock != "":
+		return report("deadlock (the call can never return): " + x.Deadlock)
+	case x.Panic != "":
+		return report("panicked: " + panicSummary(x.Panic))
+	}
+	return ferr
 }
 
 func (s *Sess) OpenDB() error {
